@@ -19,6 +19,7 @@ K0 = {
     "str_quote": "always",  # always | pattern
     "re_flag_prefix": False,
     "correlation": False,
+    "state_expr": False,  # query_expression exposes pipeline state: IDX<{state[index]}> {query}
 }
 ALL_TEMPLATES = ["sw", "ew", "ct", "wm", "cs", "cssw", "csew", "csct", "notexists", "cidr"]
 
@@ -133,6 +134,8 @@ def make_backend_class(k, fresh=False):
         a.update(field_not_exists_expression="NOTEXISTS {field}")
     if "cidr" in t:
         a.update(cidr_expression="{field} CIDR <{value}|{network}|{prefixlen}|{netmask}>", not_cidr_expression="{field} NCIDR <{value}|{network}|{prefixlen}|{netmask}>")
+    if k.get("state_expr"):
+        a.update(query_expression="IDX<{state[index]}> {query}", state_defaults={"index": "default"})
     if k.get("correlation"):
         from mc import vcorr
 
